@@ -308,6 +308,10 @@ type Cfg struct {
 	FeeEnabled     bool     `json:"fee_enabled,omitempty"`
 	MinFee         uint64   `json:"min_fee,omitempty"`
 	Exempt         []string `json:"exempt,omitempty"` // ChainConfig.TxnExempt function names
+	// PrevSkew: creation date of the previous block relative to the local clock in seconds
+	// (0 = the default of 10 s in the past; positive = a previous block from a miner whose clock is
+	// ahead, generateBlock then clamps the new block's creation date to it)
+	PrevSkew int64 `json:"prev_skew,omitempty"`
 }
 
 type Acct struct {
@@ -378,6 +382,9 @@ func NewMiner(cfg Cfg, accts []Acct, rnd int64, now common.Timestamp) *Miner {
 
 	pb := block.NewBlock(c.GetKey(), rnd-1)
 	pb.CreationDate = now - 10
+	if cfg.PrevSkew != 0 {
+		pb.CreationDate = now + common.Timestamp(cfg.PrevSkew)
+	}
 	pb.Hash = PrevHash
 	pb.MinerID = selfNode.GetKey()
 	mpt := util.NewMerklePatriciaTrie(util.NewMemoryNodeDB(), util.Sequence(rnd-1), nil, statecache.NewEmpty())
